@@ -16,7 +16,7 @@ PLAN = dict(
     runs=[
         dict(name="perm", run="^(TestPropPermutations|TestCorpus)$", checks=(600, 100000), shards=(1, 16), timeout=(300, 3600)),
         dict(name="mut", run="^TestPropMutationHistory$", checks=(500, 50000), shards=(1, 8), timeout=(300, 3600)),
-        dict(name="hist", run="^TestPropHistory$", checks=(400, 50000), shards=(1, 16), timeout=(300, 3600)),
+        dict(name="hist", run="^(TestPropHistory|TestFixedHistories)$", checks=(400, 50000), shards=(1, 16), timeout=(300, 3600)),
         dict(name="firstuse", run="^TestFirstUseConcurrent$", shards=(2, 16), timeout=(300, 3600), race=True),
         dict(name="sharedchain", run="^TestPropSharedChain$", checks=(150, 5000), shards=(1, 4), timeout=(400, 3600), race=True),
         dict(name="conc", run="^TestPropConcurrent$", checks=(120, 15000), shards=(1, 4), timeout=(400, 3600), race=True),
